@@ -57,7 +57,11 @@ def snapshot(t):
 
 
 def unchanged(t, snap):
-    """None if t is bit-identical to its shadow, else a description"""
+    """None if t still has the value and shape metadata of its shadow, else a description.
+
+    Bit-identical cores are accepted immediately; otherwise the metadata must be equal and the dense value must agree to
+    1e-10 relative to the product of the core norms (a value-preserving re-gauging of an argument is not a change of its value;
+    anything that aliasing or an in-place sweep on a shared buffer does is O(1))."""
     cores, rows, cols, ranks, order = snap
     msg = dense.consistent(t)
     if msg:
@@ -65,9 +69,16 @@ def unchanged(t, snap):
     if t.order != order or list(t.row_dims) != rows or list(t.col_dims) != cols or list(t.ranks) != ranks:
         return 'metadata changed: order %s->%s rows %s->%s cols %s->%s ranks %s->%s' % (
             order, t.order, rows, t.row_dims, cols, t.col_dims, ranks, t.ranks)
-    for i, (a, b) in enumerate(zip(t.cores, cores)):
-        if a.shape != b.shape or a.dtype != b.dtype or not np.array_equal(a, b, equal_nan=True):
-            return 'core %d changed (max diff %s)' % (i, (np.max(np.abs(a - b)) if a.shape == b.shape else 'shape'))
+    if all(a.shape == b.shape and np.array_equal(a, b, equal_nan=True) for a, b in zip(t.cores, cores)):
+        return None
+    scale = max(dense.scale_of(cores), 1e-300)
+    size = float(np.prod([float(r) * c for r, c in zip(rows, cols)]))
+    if size <= 2e6 and ranks[0] == 1 and ranks[-1] == 1:
+        diff = float(np.max(np.abs(dense.contract(t.cores) - dense.contract(cores))))
+    else:
+        diff = dense.tt_norm(dense.tt_add([np.asarray(c) for c in t.cores], dense.tt_scale(cores, -1.0)))
+    if not diff <= 1e-10 * scale:
+        return 'dense value changed (max abs diff %.3e, scale %.3e)' % (diff, scale)
     return None
 
 
